@@ -6,16 +6,24 @@ import json, os, shutil, subprocess, sys
 
 props = {x['id']: x for x in (json.loads(l) for l in open('/verif/properties.jsonl'))}
 tmpl = open('/verif/lib/mut_prompt_template.txt').read()
-for pid in sys.argv[1:]:
+for arg in sys.argv[1:]:
+    # "C10" or "C10.2=<ideas already used, to be avoided>"
+    avoid = ''
+    if '=' in arg:
+        arg, avoid = arg.split('=', 1)
+    pid = arg.split('.')[0]
+    tag = arg.replace('.', '_')
     pr = props[pid]
-    out = '/var/tmp/mutout_' + pid
-    wt = '/var/tmp/mut_' + pid
+    out = '/var/tmp/mutout_' + tag
+    wt = '/var/tmp/mut_' + tag
     shutil.rmtree(out, ignore_errors=True)
     os.makedirs(out)
     subprocess.run(['git', '-C', '/repo', 'worktree', 'remove', '--force', wt], capture_output=True)
     subprocess.run(['git', '-C', '/repo', 'worktree', 'add', '--detach', wt, 'HEAD', '-q'], check=True)
     body = "%s: %s\n\n%s\n\nQuantified over: %s (%s)" % (
         pid, pr['title'], pr['statement'], ', '.join(pr['quantifier']['over']), pr['quantifier']['text'])
-    txt = tmpl.replace('WORKTREE', wt).replace('PROPERTY_TEXT', body).replace('OUTDIR', out).replace('p_ID.diff', 'p_%s.diff' % pid)
+    if avoid:
+        body += "\n\n(Another engineer already used this idea; choose a DIFFERENT site and mechanism: %s)" % avoid
+    txt = tmpl.replace('WORKTREE', wt).replace('PROPERTY_TEXT', body).replace('OUTDIR', out).replace('p_ID.diff', 'p_%s.diff' % tag)
     open(out + '/prompt.txt', 'w').write(txt)
-    print('prepared', pid)
+    print('prepared', tag)
